@@ -5,6 +5,9 @@ import EaselModel.Gencode.Lemmas2
 import EaselModel.Gencode.OrfLemmas3
 import EaselModel.Gencode.OrfDecl2
 import EaselModel.Gencode.OrfOrder
+import EaselModel.Gencode.TableFacts1
+import EaselModel.Gencode.TableFacts2
+import EaselModel.Gencode.TableFacts3
 import EaselModel.Alphabet.Iupac
 /-! # C17 — property theorems (statements + glue only; lemmas live in Gencode/*.lean)
 
@@ -12,18 +15,7 @@ import EaselModel.Alphabet.Iupac
 hand-pinned NCBI tables; `A.dna`, `A.amino` = the alphabets dumped from the code (C08). -/
 namespace EaselModel.Props.C17
 open EaselModel.Alphabet EaselModel.Gencode
-namespace T
-export EaselModel.Generated.Gencode (tables)
-end T
-namespace A
-export EaselModel.Generated.Alphabets (dna amino)
-end A
-
-/-- a genetic code object set from a table row (`esl_gencode_Set`) -/
-def codeOf (t : RawTable) : Gencode := { translTable := t.id, desc := t.desc, basic := t.basic, isInit := t.init }
-
-/-- the three initiator settings esl-translate offers: table's own (`-M`), any sense codon (default), ATG only (`-m`) -/
-def settings (g : Gencode) : List Gencode := [g, setInitiatorAny A.amino g, setInitiatorOnlyAUG A.dna g]
+-- `T.tables`, `A.dna`, `A.amino`, `codeOf`, `settings` are defined in `Gencode/Builtin.lean`.
 
 /-! ## tables -/
 
@@ -34,14 +26,14 @@ theorem tables_pinned :
     (∀ t ∈ T.tables, (t.id, Ncbi.aasLine t.basic, Ncbi.startsLine t.init) ∈
         Ncbi.pinned.map (fun p => (p.1, p.2.1.toList, p.2.2.toList))) ∧
     (∀ p ∈ Ncbi.pinned.map (fun p => (p.1, p.2.1.toList, p.2.2.toList)),
-        p ∈ T.tables.map (fun t => (t.id, Ncbi.aasLine t.basic, Ncbi.startsLine t.init))) := by decide +kernel
+        p ∈ T.tables.map (fun t => (t.id, Ncbi.aasLine t.basic, Ncbi.startsLine t.init))) := Facts.tables_pinned
 
 /-- `esl_gencode_Set(id)` finds exactly the pinned ids, each once -/
 theorem table_ids :
     (T.tables.map (·.id)).Nodup ∧ (∀ id ∈ T.tables.map (·.id), id ∈ Ncbi.pinned.map (·.1)) ∧
     (∀ id ∈ Ncbi.pinned.map (·.1), id ∈ T.tables.map (·.id)) ∧
     Ncbi.pinned.map (·.1) = [1, 2, 3, 4, 5, 6, 9, 10, 11, 12, 13, 14, 16, 21, 22, 23, 24, 25] ∧
-    (∀ t ∈ T.tables, setTable T.tables t.id = some (codeOf t)) ∧ (setTable T.tables 1).isSome = true := by decide +kernel
+    (∀ t ∈ T.tables, setTable T.tables t.id = some (codeOf t)) ∧ (setTable T.tables 1).isSome = true := Facts.table_ids
 
 /-- under each of the three initiator settings every table is a well-formed code in which no initiator codon is a stop
     codon, every entry is an amino acid or the stop code, and the dumped alphabets satisfy the hypotheses below -/
@@ -49,14 +41,14 @@ theorem no_initiator_stop :
     NtOK A.dna ∧ A.dna.Kp = 18 ∧ A.amino.unknown = 26 ∧ A.amino.K = 20 ∧
     ∀ t ∈ T.tables, ∀ g ∈ settings (codeOf t), CodeOK g ∧
       ∀ c, c < 64 → (g.basic.getD c 99 < 20 ∨ g.basic.getD c 99 = A.amino.nonresidue) ∧
-        (g.isInit.getD c 0 ≠ 0 → g.basic.getD c 99 ≠ A.amino.nonresidue) := by decide +kernel
+        (g.isInit.getD c 0 ≠ 0 → g.basic.getD c 99 ≠ A.amino.nonresidue) := Facts.no_initiator_stop
 
 /-- the nucleotide degeneracy rows the translation loop reads are the IUPAC sets: a canonical base stands for itself,
     a degenerate symbol for its documented set (as indices into ACGT), gap / `*` / `~` for nothing -/
 theorem expand_is_iupac :
     ∀ a, a < 18 → flags (A.dna.degen.getD a []) =
-      (Iupac.denotes .dna ((Iupac.symbols .dna).getD a ' ')).map fun ch => (Iupac.canonical .dna).idxOf ch := by
-  decide +kernel
+      (Iupac.denotes .dna ((Iupac.symbols .dna).getD a ' ')).map fun ch => (Iupac.canonical .dna).idxOf ch :=
+  Facts.expand_is_iupac
 
 /-- writing any built-in table (under any of the three initiator settings, with or without the Easel comment line) in
     NCBI text form and reading it back gives the same table: same 64 amino acids / stops, same 64 initiator flags
@@ -65,7 +57,7 @@ theorem expand_is_iupac :
 theorem read_write_roundtrip :
     ∀ g1 ∈ (setTable T.tables 1).toList, ∀ t ∈ T.tables, ∀ g ∈ settings (codeOf t), ∀ cm ∈ [true, false],
       (write A.dna A.amino g cm).bind (read A.dna A.amino g1) =
-        some { translTable := -1, desc := "", basic := g.basic, isInit := g.isInit } := by decide +kernel
+        some { translTable := -1, desc := "", basic := g.basic, isInit := g.isInit } := Facts.read_write_roundtrip
 
 /-! ## translation of a possibly degenerate codon: ANY table, ANY degeneracy matrix, any triplet of codes (general proof) -/
 
@@ -191,7 +183,7 @@ theorem orf_numbering_and_order (nt aa : Alphabet) (g : Gencode) (cfg : Cfg) (hn
 
 /-- every built-in table under every initiator setting satisfies the hypothesis `TableOK` of `orf_frame_declarative`
     (no initiator codon is a stop; M and X are not the stop code) -/
-theorem builtin_tables_ok : ∀ t ∈ T.tables, ∀ g ∈ settings (codeOf t), TableOK A.amino g := by decide +kernel
+theorem builtin_tables_ok : ∀ t ∈ T.tables, ∀ g ∈ settings (codeOf t), TableOK A.amino g := Facts.builtin_tables_ok
 
 /-! ## non-vacuity -/
 -- ATGAAATAAATGCCCTAGG in the standard code, any-initiator, minlen 0, top strand, windows 4+5+10:
